@@ -200,3 +200,28 @@ func Verif_C17_dial_releases_socket() {
 	verifapi.Assert("no-lock-left-held", verifapi.HeldLocks() == 0)
 	_ = time.Second
 }
+
+// Verif_C17_open_during_shutdown: the node is shut down (its context is cancelled) at any point
+// while a datagram socket is being opened and closed again, every schedule within the pre-emption
+// bound and every choice of a select with several ready cases: nothing panics and, afterwards,
+// everything has stopped.
+func Verif_C17_open_during_shutdown() {
+	n := verifNetceptor("A")
+	s := n.s
+	verifapi.Quiesce()
+	verifapi.ExploreSchedules(1 + verifapi.Tier())
+	verifapi.GoLow(func() { s.cancelFunc() })
+	pc, err := s.ListenPacket("svc")
+	if err == nil && pc != nil {
+		_ = pc.Close()
+	}
+	verifapi.Quiesce()
+	verifapi.ExploreSchedules(0)
+	s.cancelFunc()
+	verifapi.Quiesce()
+	verifapi.Cover("shut-down")
+	_, bound := s.listenerRegistry["svc"]
+	verifapi.Assert("service-name-released", !bound)
+	verifapi.Assert("all-background-activity-stopped", verifapi.Blocked())
+	verifapi.Assert("no-lock-left-held", verifapi.HeldLocks() == 0)
+}
